@@ -7,7 +7,7 @@ EXPLANATION = (
     "each setter/pusher/getter addresses its own variable and carries the value unchanged (D1-ACCESSOR/D1-PAYLOAD), insert_or_update overwrites or inserts on every path (a repeated variable keeps its last value, whatever the value is) and insert_or_push appends (D1-PRIMITIVE); "
     "D2 required-variable sets of from_str, is_completed and the spec agree, Incomplete names the right variable, MissingVariable prints its pkg_summary name; "
     "D3 error kinds (ParseLine for a line without '=', unknown variable / bad integer propagated unchanged); "
-    "D4 the line is split at the first '=' (splitn(2,'=')/split_once), key = part 0, value = part 1")
+    "D4 the line is split at the first '=' (splitn(2,'=')/split_once), key = part 0, value = part 1; what is split is an item of s.lines() over the whole argument, as it is (D4-LINES)")
 NOT_DECIDED = [
     "str::lines / str::parse::<i64> semantics (std)",
     "that accumulated order equals input order beyond 'push appends' (D1-PRIMITIVE) and 'lines() is in order' (std)",
@@ -77,6 +77,7 @@ def run(ctx):
 
     # key = from_str(parts[0]); split = first '='
     n = 0
+    key_split = None
     for p in paths:
         for e in p.calls(FROMSTR_VAR):
             n += 1
@@ -91,6 +92,17 @@ def run(ctx):
                       body.span_of(e.bb), nontrivial=False)
             break
     ctx.floor("D4-FIRSTSEP", FROMSTR_SUM, "key parse sites", n, 1)
+    # D4-LINES: what is split is a line of the input as it is: an item of s.lines() over the whole argument (not of a trimmed, truncated or
+    #           otherwise rewritten copy), and the line itself (not a trimmed copy of it): blanks at the end of a value are part of the value
+    if n and key_split is not None:
+        from lib import _iter_source
+        subj = key_split["subject"]
+        isline = isinstance(subj, tuple) and len(subj) > 2 and subj[0] == "field" and subj[2] == 0 and isinstance(subj[1], tuple) and subj[1][0] == "downcast" and subj[1][2] == "Some" \
+            and is_call(strip_refs(subj[1][1]), "Lines<'a> as std::iter::Iterator>::next", "str::Lines")
+        src = _iter_source(call_args(strip_refs(subj[1][1]))[0]) if isline else None
+        whole = is_call(src, "str>::lines") and strip_refs(call_args(src)[0]) == ("param", 1)
+        ctx.check(isline and whole, "D4-LINES", FROMSTR_SUM, "lines-of-the-input", "each line of s.lines() is split as it is",
+                  "the text that is split at '=' is %s, not a line of the whole input taken with s.lines()" % (term_str(subj)[:100] if not isline else "a line of " + term_str(src)[:80]), fn_span(body))
 
     # ---- D3 error kinds
     found_parseline = False
